@@ -209,6 +209,9 @@ impl Scene for S {
                 v("ops-on-failed-actor-resolve", format!("C06/hang/client={}/cause={ck}", o.c), format!("client {} op {} never resolved although A terminated", o.c, o.i));
                 continue;
             }
+            if o.c == LATE && o.i >= 2 && o.i <= 7 && o.begin > tidx {
+                crate::check::oblige("later-ops-error");
+            }
             if o.c == LATE && o.i >= 2 && o.i <= 7 && o.begin > tidx && o.ok() {
                 v("later-ops-error", format!("C06/ok-after-failure/op={}/cause={ck}", o.i), format!("late operation {} on A returned {:?}", o.i, o.res));
             }
@@ -216,6 +219,12 @@ impl Scene for S {
                 v("pending-call-error", format!("C06/pending-call-ok-unhandled/cause={ck}"), "a call pending at the failure returned Ok without having been handled".into());
             }
             if failed {
+                if o.c == AWAITER && o.i == 0 {
+                    crate::check::oblige("await-error");
+                }
+                if o.c == OWNER && o.i <= 1 {
+                    crate::check::oblige("join-none");
+                }
                 if o.c == AWAITER && o.i == 0 && o.ok() {
                     v("await-error", format!("C06/await-ok-after-failure/cause={ck}"), "awaiting A returned Ok although A failed".into());
                 }
@@ -226,6 +235,7 @@ impl Scene for S {
         }
         // --- its timers stop firing; none is leaked
         if self.parts.timers {
+            crate::check::oblige("timers-stop");
             for e in &an.enters {
                 if e.a == 0 && matches!(e.cb, Cb::Tick { .. } | Cb::Exec { .. }) && e.idx > tidx {
                     v("timers-stop", format!("C06/timer-fired-after-failure/cause={ck}"), format!("{:?} fired after A had terminated", e.cb));
@@ -243,6 +253,7 @@ impl Scene for S {
         // --- children are released and stop gracefully; the outside-held one lives on
         let a_started = an.enters.iter().any(|e| e.a == 0 && e.cb == Cb::Started);
         if self.parts.children && a_started && settled {
+            crate::check::oblige("children-released");
             for role in [2u8, 3] {
                 let se = an.enters.iter().find(|e| e.a == role && e.cb == Cb::Stopped).map(|e| e.idx);
                 let sx = an.exits.iter().any(|e| e.a == role && e.cb == Cb::Stopped);
@@ -261,6 +272,7 @@ impl Scene for S {
         }
         // --- bystander keeps working and sees nothing but errors
         if self.parts.bystander {
+            crate::check::oblige("bystander-unharmed");
             for i in [0u16, 2, 3] {
                 match an.op(BUSER, i) {
                     Some(o) if o.end.is_some() && !o.ok() => v("bystander-unharmed", format!("C06/bystander-call-failed/op={i}/cause={ck}"), format!("call {i} to bystander B returned {:?}", o.res)),
@@ -286,6 +298,7 @@ impl Scene for S {
         }
         // --- the registry treats it as not running
         if self.parts.registry {
+            crate::check::oblige("registry-not-running");
             let r = |i: u16| an.op(REG, i).and_then(|o| o.res);
             if let Some(res) = r(1) {
                 if !matches!(res, Res::Reg { present: false, .. }) {
@@ -376,6 +389,7 @@ pub fn property() -> Property {
     Property {
         id: "C06",
         cases,
+        clauses: &["later-ops-error", "await-error", "join-none", "timers-stop", "children-released", "bystander-unharmed", "registry-not-running"],
         assumptions: &[
             "single faults (pairs are not built); cancellation is modelled as the executor dropping the actor task's future instead of performing its j-th poll",
             "release semantics: the debug_assert!(ping) trip-wire in from_registry is compiled out",
